@@ -75,6 +75,9 @@ type refResult struct {
 	tally      map[thor.Bytes32]uint32 // bft quality of each block as the reference engine computed it
 }
 
+// mintError: the real packer (on the omniscient stack, no concurrency) failed to pack a block from valid inputs.
+type mintError struct{ err error }
+
 func must(err error) {
 	if err != nil {
 		panic(err)
@@ -143,7 +146,7 @@ func buildStream(seed int64, blocks int, pos bool) *world {
 		}
 		blk, err := net.Mint(parent.Header().ID(), who, com, 0, txs...)
 		if err != nil {
-			panic(err)
+			panic(mintError{fmt.Errorf("packing block %d on %s (signer %d, %d txs): %w", parent.Header().Number()+1, short(parent.Header().ID()), who, len(txs), err)})
 		}
 		used[key] = true
 		path[blk.Header().ID()] = key
